@@ -283,7 +283,7 @@ func drawSpec(t *rapid.T, timed bool) Spec {
 		Salted:  rapid.Bool().Draw(t, "salted"), Params: rapid.Bool().Draw(t, "params"), Fwd: rapid.Bool().Draw(t, "fwd"), Prox: rapid.Bool().Draw(t, "prox"), Canon: rapid.Bool().Draw(t, "canon"),
 		NoAddr: rapid.Bool().Draw(t, "noaddr"), RenewLife: rapid.SampledFrom([]string{"", "10m", "7d"}).Draw(t, "renew"),
 		TicketLife: rapid.SampledFrom([]string{"", "10m", "1h"}).Draw(t, "tlife"), Hops: rapid.SampledFrom([]int{0, 0, 0, 1, 1, 2, 3, 4, 5, 6, 8}).Draw(t, "hops"),
-		Via: rapid.SampledFrom([]string{"referral", "domain_realm"}).Draw(t, "via"), KDCs: rapid.IntRange(1, 3).Draw(t, "kdcs"), Loop: rapid.IntRange(0, 3).Draw(t, "loop") == 0}
+		Via: rapid.SampledFrom([]string{"referral", "domain_realm"}).Draw(t, "via"), KDCs: rapid.IntRange(1, 3).Draw(t, "kdcs"), DupKDC: rapid.IntRange(0, 5).Draw(t, "dupkdc") == 0, Loop: rapid.IntRange(0, 3).Draw(t, "loop") == 0}
 	n := rapid.IntRange(1, 3).Draw(t, "netypes")
 	pool := append([]int32{}, ref.ETypes...)
 	for i := 0; i < n; i++ {
